@@ -228,6 +228,12 @@ def gen_cases(rng, tier):
         yield gen_scheduler_case(rng, tier)
     for _ in range(n_m):
         yield gen_manager_case(rng, tier)
+    # the real DEHB scheduler (monitor only, no model of DEHB's scheduler): with pause and resume (the default) the best trials of a
+    # completed rung of the first bracket are RESUMED - a new trial is never given the configuration of an earlier one
+    for i in range(6 if tier == "quick" else 60):
+        yield {"dehb_run": True, "sched_seed": rng.randrange(10 ** 6), "seed": rng.randrange(10 ** 9),
+               "cs_kind": rng.choice(["finite", "mixed", "cont"]), "max_t": 9, "n_workers": rng.randint(1, 4),
+               "max_events": 200, "style": "distinct", "p_fail": 0, "extra": {"brackets": rng.choice([None, 1, 2])}}
     if tier == "thorough":
         for systems, w, mt in TINY:
             for mode, style in (("min", "id"), ("max", "ties")):
@@ -257,6 +263,14 @@ def corpus():
 
 
 def run_impl(spec):
+    if spec.get("dehb_run"):
+        from props import c06
+        r = c06.run_dehb(dict(spec, scenario="dehb"))
+        for f in r["monitor"]:
+            f["signature"] = "c05:dehb-earlier-trial-started-anew"
+            f["what"] = f["what"] + " (a trial that should have been resumed from its rung was started anew)"
+        r["meta"]["hist"] = {"dehb-run:" + k: v for k, v in r["meta"]["hist"].items()}
+        return r
     if spec.get("level") == "manager":
         t = sync.run_manager(spec)
     else:
